@@ -388,6 +388,48 @@ impl Visitor for Quiet {
     }
 }
 
+// A zero-sized visitor: its whole state lives in a thread-local.  "For every visitor" includes visitors of every
+// shape (size, alignment, Drop); a crate that specialises on the visitor's type (size_of, associated consts,
+// defaulted trait items) must still deliver the same callbacks.  Logs (kind, index-or-count, slice length).
+thread_local! { static ZLOG: std::cell::RefCell<Vec<(u8, u64, u64)>> = std::cell::RefCell::new(Vec::new()); }
+fn zpush(k: u8, i: u64, l: u64) {
+    ZLOG.with(|z| { let mut z = z.borrow_mut(); if z.len() < 4_000_000 { z.push((k, i, l)); } });
+}
+struct Zst;
+impl Visitor for Zst {
+    fn visit_block_header(&mut self, h: &bsl::BlockHeader) -> ControlFlow<()> { zpush(0, 0, h.as_ref().len() as u64); ControlFlow::Continue(()) }
+    fn visit_block_begin(&mut self, n: usize) { zpush(1, n as u64, 0) }
+    fn visit_transaction(&mut self, tx: &bsl::Transaction) -> ControlFlow<()> { zpush(10, 0, tx.as_ref().len() as u64); ControlFlow::Continue(()) }
+    fn visit_tx_ins(&mut self, n: usize) { zpush(2, n as u64, 0) }
+    fn visit_tx_in(&mut self, vin: usize, t: &bsl::TxIn) -> ControlFlow<()> { zpush(3, vin as u64, t.as_ref().len() as u64); ControlFlow::Continue(()) }
+    fn visit_tx_outs(&mut self, n: usize) { zpush(4, n as u64, 0) }
+    fn visit_tx_out(&mut self, vout: usize, t: &bsl::TxOut) -> ControlFlow<()> { zpush(5, vout as u64, t.as_ref().len() as u64); ControlFlow::Continue(()) }
+    fn visit_witness(&mut self, vin: usize) -> ControlFlow<()> { zpush(6, vin as u64, 0); ControlFlow::Continue(()) }
+    fn visit_witness_total_element(&mut self, n: usize) { zpush(7, n as u64, 0) }
+    fn visit_witness_element(&mut self, i: usize, el: &[u8]) { zpush(8, i as u64, el.len() as u64) }
+    fn visit_witness_end(&mut self) { zpush(9, 0, 0) }
+}
+/// the same log derived from the recording visitor's tokens ("kind,..." with windows as "off,len")
+fn zlog_of_toks(toks: &[String]) -> Vec<(u8, u64, u64)> {
+    toks.iter().map(|t| {
+        let f: Vec<&str> = t.split(',').collect();
+        let n = |i: usize| f.get(i).and_then(|x| x.parse::<u64>().ok()).unwrap_or(u64::MAX);
+        match f[0] {
+            "0" => (0, 0, n(2)),
+            "1" => (1, n(1), 0),
+            "10" => (10, 0, n(2)),
+            "2" => (2, n(1), 0),
+            "3" => (3, n(1), n(3)),
+            "4" => (4, n(1), 0),
+            "5" => (5, n(1), n(3)),
+            "6" => (6, n(1), 0),
+            "7" => (7, n(1), 0),
+            "8" => (8, n(1), n(3)),
+            _ => (9, 0, 0),
+        }
+    }).collect()
+}
+
 // ---------- decoded structure from events (for the rust-bitcoin differential) ----------
 #[derive(Default, Debug, Clone)]
 struct DecTx {
@@ -758,6 +800,13 @@ macro_rules! visit_x_tokens {
             let mut ev2 = EmptyVisitor {};
             let rvpath = <$ty>::visit(inp, &mut ev2);
             write!(s, " x_emptyvisit_eq={}", (rv == $r && rvpath == $r) as u8).unwrap();
+            // a zero-sized visitor (state in a thread-local) must be handed the same callbacks and get the same result
+            if $rec.over == 0 {
+                ZLOG.with(|z| z.borrow_mut().clear());
+                let rz = <$ty as Visit>::visit(inp, &mut Zst);
+                let same = ZLOG.with(|z| *z.borrow() == zlog_of_toks(&$rec.toks));
+                write!(s, " x_zst={}", (same && rz == $r) as u8).unwrap();
+            }
             if let Ok(p) = &$r {
                 let view: &[u8] = p.parsed().as_ref();
                 // re-parse
@@ -1170,8 +1219,8 @@ fn run_block(inp: &[u8], brk: i64) -> String {
 }
 
 // ---------- cache histories ----------
-fn run_cache(cap: u64, ops: &[&str]) -> String {
-    let mut c: SliceCache<u64> = SliceCache::new(cap as usize);
+fn run_cache_k<K: std::hash::Hash + Eq + core::fmt::Debug>(cap: u64, ops: &[&str], mk: fn(u64) -> K) -> String {
+    let mut c: SliceCache<K> = SliceCache::new(cap as usize);
     let mut keys: Vec<u64> = vec![];
     let mut s = String::new();
     let bytes_tok = |v: &[u8]| -> String { v.iter().map(|b| format!(",{}", b)).collect::<String>() };
@@ -1186,7 +1235,7 @@ fn run_cache(cap: u64, ops: &[&str]) -> String {
         match parts[0] {
             "i" => {
                 let v = unhex(parts[2]);
-                match c.insert(key.unwrap(), &v) {
+                match c.insert(mk(key.unwrap()), &v) {
                     Ok(n) => write!(s, " i=0,{}", n).unwrap(),
                     Err(e) => {
                         let d = format!("{:?}", e);
@@ -1194,18 +1243,18 @@ fn run_cache(cap: u64, ops: &[&str]) -> String {
                     }
                 }
             }
-            "g" => match c.get(&key.unwrap()) {
+            "g" => match c.get(&mk(key.unwrap())) {
                 Some(v) => write!(s, " g=1{}", bytes_tok(v)).unwrap(),
                 None => s.push_str(" g=0"),
             },
-            "c" => write!(s, " c={}", c.contains(&key.unwrap()) as u8).unwrap(),
+            "c" => write!(s, " c={}", c.contains(&mk(key.unwrap())) as u8).unwrap(),
             "v" => {
                 // typed lookup (redb feature): Transaction::from_bytes unwraps, so other bytes panic (v=2)
                 let k = key.unwrap();
-                let tok = (|| catch_unwind(AssertUnwindSafe(|| match c.get_value::<bsl::Transaction>(&k) {
+                let tok = (|| catch_unwind(AssertUnwindSafe(|| match c.get_value::<bsl::Transaction>(&mk(k)) {
                     None => " v=0".to_string(),
                     Some(t) => {
-                        let base = c.get(&k).unwrap();
+                        let base = c.get(&mk(k)).unwrap();
                         let (a, b, cc) = t.txid_preimage();
                         format!(" v=1,{},{},{},{},{},{},{}", t.as_ref().len(), t.version() as u32, t.locktime(),
                                 pws(base, a), pws(base, b), pws(base, cc), t.weight())
@@ -1229,17 +1278,17 @@ fn run_cache(cap: u64, ops: &[&str]) -> String {
         write!(s, " len={} full={}", c.len(), c.full() as u8).unwrap();
         let mut regions: Vec<(usize, usize, u64)> = vec![];
         for k in &keys {
-            match c.get(k) {
+            match c.get(&mk(*k)) {
                 Some(v) => {
                     write!(s, " o={},1{}", k, bytes_tok(v)).unwrap();
                     if !v.is_empty() {
                         regions.push((v.as_ptr() as usize, v.as_ptr() as usize + v.len(), *k));
                     }
-                    if c.contains(k) != true { s.push_str(" x_contains_mismatch=1"); }
+                    if c.contains(&mk(*k)) != true { s.push_str(" x_contains_mismatch=1"); }
                 }
                 None => {
                     write!(s, " o={},0", k).unwrap();
-                    if c.contains(k) != false { s.push_str(" x_contains_mismatch=1"); }
+                    if c.contains(&mk(*k)) != false { s.push_str(" x_contains_mismatch=1"); }
                 }
             }
         }
@@ -1252,6 +1301,23 @@ fn run_cache(cap: u64, ops: &[&str]) -> String {
         }
     }
     s
+}
+
+/// A key type whose hash is deliberately weak (three hash values in all): the cache is generic in the key and
+/// may rely on `Eq`, never on hashes being distinct.
+#[derive(Debug, PartialEq, Eq, Clone)]
+struct WeakKey(u64);
+impl std::hash::Hash for WeakKey {
+    fn hash<H: std::hash::Hasher>(&self, state: &mut H) {
+        state.write_u8((self.0 % 3) as u8);
+    }
+}
+/// every history runs with plain u64 keys and with colliding keys; the observations must be the same, and when they
+/// are not it is the colliding run that is reported (so that the model comparison and the oracles see it)
+fn run_cache(cap: u64, ops: &[&str]) -> String {
+    let plain = run_cache_k::<u64>(cap, ops, |k| k);
+    let weak = catch_unwind(AssertUnwindSafe(|| run_cache_k::<WeakKey>(cap, ops, WeakKey))).unwrap_or_else(|_| " panic=".to_string());
+    if weak != plain { format!("{} x_weakkey=0", weak) } else { plain }
 }
 
 // ---------- a cache larger than 4 GiB (C06/C11/C13 beyond the 32-bit range: about 4.2 GB resident for a few seconds) ----------
